@@ -211,12 +211,13 @@ class Statement(object):
         expression_offset = 0
         if self.operand.left.is_address_expression():
             rel_index = self.operand.left.extract_address_index_from_expression()
-            if self.operand.left.operation not in ["+", "-"]:
+            expression = self.operand.left
+            other_value = expression.right if expression.left.is_address() else expression.left
+            if expression.operation not in ["+", "-"] or not other_value.is_numeric():
                 self.force_pcr_16_bit()
                 return
             # A constant added to or taken from the label moves the target by at most its magnitude
-            expression = self.operand.left
-            expression_offset = expression.right.int if expression.left.is_address() else expression.left.int
+            expression_offset = other_value.int
 
         range_count = range(this_index, rel_index)
         if rel_index < this_index:
